@@ -156,6 +156,24 @@ struct AsyncEngine : run::Engine {
 			p.cfg["maxops"] = (int64_t)p.ops.size() + 10;
 			return p;
 		}
+		if (!tier && property != "C14" && g.chance(1, 30)) {
+			// the quick tier's short wrap-around plan: cache of one or two, 36..90 honest round trips, now and then an old reply again
+			p.cfg["cache"] = g.pickl<int64_t>({1, 1, 2});
+			p.cfg["maxreq"] = 1000; p.cfg["faults"] = 0; p.cfg["svc"] = 0; p.cfg["conf_req"] = 0; p.cfg["growcache"] = 0; p.cfg["recreate"] = 0;
+			int rounds = (int)g.range(36, 90);
+			for (int i = 0; i < rounds; i++) {
+				p.ops.push_back({"ADD", {0, 0}});
+				p.ops.push_back({"RUN", {}});
+				p.ops.push_back({"SRVREAD", {0}});
+				p.ops.push_back({"REPLY", {0, 0, (int64_t)g.below(1 << 30)}});
+				p.ops.push_back({"DELIVER", {0, 0}});
+				p.ops.push_back({"RUN", {}});
+				p.ops.push_back({"FREE", {0}});
+				if (p.c("adv") && g.chance(1, 10)) p.ops.push_back({"DUP", {(int64_t)g.below(64)}});
+			}
+			p.cfg["maxops"] = (int64_t)p.ops.size() + 10;
+			return p;
+		}
 		gen_async_ops(g, p, nops, false, 1);
 		p.cfg["cred_in_uri"] = g.chance(1, 5) ? 1 : 0;
 		return p;
